@@ -47,6 +47,7 @@ CONSTANTS N,          \* chunks are 1..N; a chunk references only lower-numbered
           Modes,      \* subset of {"default", "full"}
           MaxGC,      \* collections that may be started
           Dag,        \* "all": every DAG over 1..N; otherwise the name of a fixed shape (see RefsOf)
+          InitRoots,  \* the initial store roots considered (0 = empty store)
           RawPuts,    \* include NodeStore.Write-style puts (not bracketed by waitForNotFinalizingGC)
           ExtReads,   \* include reads of addresses that come from outside the store
           UseCache,   \* model the decoded-value / node caches (purged when a collection begins)
@@ -151,14 +152,22 @@ Rec(st) == /\ last' = st
            /\ hist' = IF RecordHist THEN Append(hist, [a |-> st.a, s |-> st.s, args |-> st.args, res |-> st.res, exp |-> Proj']) ELSE hist
 NoArgs == <<>>
 
-\* simulation steering: one random draw per parameter (see HOWTO)
-Pick(S) == IF RecordHist THEN (IF S = {} THEN {} ELSE {RandomElement(IF Len(hist) >= 0 THEN S ELSE {})}) ELSE S
-Rarely(n) == ~RecordHist \/ RandomElement(1..(IF Len(hist) >= 0 THEN n ELSE 1)) = 1
+\* simulation steering (RecordHist = TRUE): one draw per parameter, derived from the state and the step number (TLC's
+\* RandomElement repeats the same sequence of draws in every behaviour); salt separates the draw sites of one state.
+\* Exhaustive configs (RecordHist = FALSE) take every value.
+Mix(salt) == Len(hist) * 7919 + gcOut * 131 + Cardinality(newgen) * 31 + Cardinality(novel) * 17 + Cardinality(gcNew) * 13
+             + Cardinality(markedNew) * 7 + Cardinality(UNION {know[s] : s \in Sessions}) * 5 + Cardinality({s \in Sessions : cmd[s]}) * 3
+             + Cardinality(cache) * 11 + root + salt * 97 + salt * salt * 13
+Rnd(n, salt) == (Mix(salt) % n) + 1
+RECURSIVE NthOf(_, _)
+NthOf(S, n) == LET x == CHOOSE y \in S : TRUE IN IF n <= 1 THEN x ELSE NthOf(S \ {x}, n - 1)
+Pick(S, salt) == IF RecordHist THEN (IF S = {} THEN {} ELSE {NthOf(S, Rnd(Cardinality(S), salt))}) ELSE S
+Rarely(n, salt) == ~RecordHist \/ Rnd(n, salt) = 1
 
 -----------------------------------------------------------------------------
 Init ==
     /\ refs \in (IF Dag = "all" THEN {r \in AllDags : IsDag(r)} ELSE {RefsOf(Dag)})
-    /\ root \in 0..N
+    /\ root \in InitRoots
     /\ \E old \in {{}, Closure(IF root = 0 THEN {} ELSE refs[root] \cap OldKind)} :
        \E g \in {{}} \cup {{c} : c \in {x \in Chunks : x \notin Closure(RootSet) /\ refs[x] \subseteq Closure(RootSet)}} :
           /\ oldgen = old
@@ -523,7 +532,7 @@ ToNoGC ==
 \* EndGC, transitionToNoGC. Nothing was removed.
 CancelGC ==
     /\ gpc \in {"begin", "sp", "root", "markOld", "toNew", "addOld", "markNew", "preFin", "markNext", "finalMark", "postFin", "swap"}
-    /\ Cancels /\ Rarely(40)
+    /\ Cancels /\ Rarely(40, 3)
     /\ gpc' = "cancel"
     /\ UNCHANGED <<store, vsv, nbsv, cache, gcsets, gmode, caller, waitFor, gcsLeft, op, errs>> /\ SU
     /\ GStep("CancelGC", "ok")
@@ -566,25 +575,24 @@ AutoEnter == \E s \in Sessions : op[s].st = "waitfin" /\ gcState # "Finalizing"
 \* enabled operations would otherwise leave the collector one chance in ten).
 Kinds == 1..12
 \* two random kinds, plus the continuation of a call in flight and the command bracket (so that a step always exists)
-KindDraw == IF RecordHist THEN {RandomElement(IF Len(hist) >= 0 THEN Kinds ELSE {}), RandomElement(IF Len(hist) >= 1 THEN Kinds ELSE {}), 9, 11, 12}
-            ELSE Kinds
+KindDraw == IF RecordHist THEN {Rnd(12, 1), Rnd(12, 2), Rnd(12, 14), 9, 11, 12} ELSE Kinds
 WriterNext(s, k) ==
-    \/ (k = 1 /\ Rarely(3) /\ Forget(s))
+    \/ (k = 1 /\ Rarely(3, 4) /\ Forget(s))
     \/ (k = 2 /\ RootRead(s))
-    \/ (k = 3 /\ \E c \in Pick(know[s] \cap cache) : ReadCached(s, c))
-    \/ (k = 4 /\ \E c \in Pick(know[s] \ cache) : ReadBegin(s, c, FALSE))
+    \/ (k = 3 /\ \E c \in Pick(know[s] \cap cache, 5) : ReadCached(s, c))
+    \/ (k = 4 /\ \E c \in Pick(know[s] \ cache, 6) : ReadBegin(s, c, FALSE))
     \/ (k = 4 /\ seen[s] \notin know[s] \cup {0} /\ ReadBegin(s, seen[s], TRUE))          \* the root chunk just learnt
-    \/ (k = 5 /\ ExtReads /\ \E c \in Pick(Chunks \ (know[s] \cup cache \cup {seen[s]})) : ReadBegin(s, c, TRUE))
+    \/ (k = 5 /\ ExtReads /\ \E c \in Pick(Chunks \ (know[s] \cup cache \cup {seen[s]}), 7) : ReadBegin(s, c, TRUE))
     \/ (k = 6 /\ ReadEnd(s))
-    \/ (k = 7 /\ \E c \in Pick({x \in Chunks : refs[x] \subseteq know[s]}) : PutTry(s, c))
-    \/ (k = 8 /\ \E c \in Pick({x \in Chunks : refs[x] \subseteq know[s]}) : PutRaw(s, c))
+    \/ (k = 7 /\ \E c \in Pick({x \in Chunks : refs[x] \subseteq know[s]}, 8) : PutTry(s, c))
+    \/ (k = 8 /\ \E c \in Pick({x \in Chunks : refs[x] \subseteq know[s]}, 9) : PutRaw(s, c))
     \/ (k = 9 /\ (WriteEnter(s) \/ PutDo(s) \/ WriteEnd(s) \/ Resume(s) \/ CommitDo(s)))
-    \/ (k = 10 /\ \E r \in Pick(know[s] \ {seen[s]}) : CommitTry(s, r))
+    \/ (k = 10 /\ \E r \in Pick(know[s] \ {seen[s]}, 10) : CommitTry(s, r))
 SessionNext(s, k) ==
-    \/ (k = 11 /\ ((Rarely(2) /\ CmdBegin(s)) \/ (Rarely(3) /\ CmdEnd(s))))
+    \/ (k = 11 /\ (CmdBegin(s) \/ (Rarely(3, 12) /\ CmdEnd(s))))
     \/ (k = 12 /\ VisitDo(s))
     \/ (s \in Writers /\ WriterNext(s, k))
-    \/ (k = 11 /\ \E m \in Pick(Modes) : StartGC(s, m))
+    \/ (k = 11 /\ \E m \in Pick(Modes, 13) : StartGC(s, m))
 Next ==
     IF Gated /\ ReadInFlight THEN \E s \in Sessions : ReadEnd(s)
     ELSE IF Gated /\ AutoGC THEN SetFinalizing \/ TakeFinal \/ CancelSafepoint \/ FinishCancel
